@@ -5,6 +5,7 @@ package main
 
 import (
 	"fmt"
+	"runtime/debug"
 	"go/types"
 	"strings"
 	"sync"
@@ -172,7 +173,7 @@ func (s *Sched) goroutineMain(g *Goroutine, body func()) {
 			case summaryAbort:
 				s.finish("abort:internal", "summaryAbort escaped: "+x.why)
 			default:
-				s.finish("abort:internal", fmt.Sprintf("engine panic: %v\n%s", r, e.stackString(g.fr)))
+				s.finish("abort:internal", fmt.Sprintf("engine panic: %v\n%s\nHOST STACK:\n%s", r, e.stackString(g.fr), hostStack()))
 			}
 		}()
 		body()
@@ -736,4 +737,19 @@ type onceState struct {
 
 type wgState struct {
 	n int
+}
+
+func hostStack() string {
+	b := debug.Stack()
+	lines := strings.Split(string(b), "\n")
+	var out []string
+	for _, l := range lines {
+		if strings.Contains(l, "/verif/engine/") {
+			out = append(out, strings.TrimSpace(l))
+		}
+		if len(out) > 14 {
+			break
+		}
+	}
+	return strings.Join(out, "\n")
 }
